@@ -5,8 +5,9 @@ input : <kind> <c0> <c1> <limit|-> <group 0|1> <having 0|1> <expr tokens | -> ; 
         kind ::= inner | left | right | full | leftOuter
         expr ::= c <op> <side> <col> <int> | cc <op> <c0> <c1> | n <side> <col> | & e e | | e e | ! e      (prefix)
         rows ::= row/row/...   row ::= v,v,v   v ::= <int> | N          (empty table: `.`)
+input3: uselimit <having> <group> <plain flags> <kind> …   output: uselimit=<0|1>
 input2: chain <kind> <kind> …   (join kinds of a left-deep chain)   output: nullable=<flag per table>
-output: push0=<exprs> push1=<exprs> limit0=<n|-> semi=<0|1> | plan=<rows> | query=<rows> | sound=<planSound q>
+output: push0=<exprs> push1=<exprs> limit0=<n|-> semi=<0|1> | plan=<rows> | query=<rows> | sound=<planSound q> | planInner=<rows of the plan without the outer LIMIT>
         rows of the results: l-values,r-values per row, rows separated by `/` -/
 open MindsVerif.Sem
 
@@ -69,7 +70,27 @@ def handleChain (ks : List String) : String :=
   | some ks => "nullable=" ++ ",".intercalate ((markNullable ks).map fun b => if b then "1" else "0")
   | none => "bad-line"
 
+/-- `uselimit <having 0|1> <group 0|1> <plain flags, e.g. 1,1,0> <kind> <kind> …`: `check_use_limit` on the join sequence
+table, table, join, table, join, … -/
+def handleUseLimit (ws : List String) : String :=
+  match ws with
+  | h :: g :: flags :: ks =>
+    match ks.mapM kindOf with
+    | some ks =>
+      let fl := (flags.splitOn ",").map (· == "1")
+      let items : List SeqItem := match fl with
+        | [] => []
+        | f0 :: rest => SeqItem.table f0 ::
+            ((rest.zip ks).flatMap fun (f, k) => [SeqItem.table f, SeqItem.join k])
+      if fl.length == ks.length + 1 then
+        s!"uselimit={if checkUseLimit (h == "1") (g == "1") true items then 1 else 0}"
+      else "bad-line"
+    | none => "bad-line"
+  | _ => "bad-line"
+
 def handle (line : String) : String :=
+  if line.startsWith "uselimit " then
+    handleUseLimit (((line.drop 9).trimAscii.toString.splitOn " ").filter (· ≠ "")) else
   if line.startsWith "chain " then handleChain (((line.drop 6).trimAscii.toString.splitOn " ").filter (· ≠ "")) else
   match line.splitOn ";" with
   | [qs, a, b] =>
@@ -87,7 +108,7 @@ def handle (line : String) : String :=
         let p := plan q
         let se (es : List Expr) := "[" ++ "; ".intercalate (es.map showE) ++ "]"
         let lim0 := match p.limit0 with | none => "-" | some n => toString n
-        s!"push0={se p.push0} push1={se p.push1} limit0={lim0} semi={if p.semi1 then 1 else 0} | plan={showRows (execPlan p db)} | query={showRows (evalQuery q db)} | sound={if planSound q then 1 else 0}"
+        s!"push0={se p.push0} push1={se p.push1} limit0={lim0} semi={if p.semi1 then 1 else 0} | plan={showRows (execPlan p db)} | query={showRows (evalQuery q db)} | sound={if planSound q then 1 else 0} | planInner={showRows (execPlan { p with limit := none } db)}"
       | _, _, _, _ => "bad-line"
     | _ => "bad-line"
   | _ => "bad-line"
